@@ -341,6 +341,73 @@ def relay(model: PyModel, proto: M.Protocol, in_fmt: str, stream, out_fmt: str, 
     return (bytes(out.buf) if out_fmt == "binary" else out.getvalue()), None
 
 
+def perturb_representation(model: PyModel, t, v, rng, stats=None):
+    """The same logical value in another in-memory representation that the Python API equally accepts: arrays in
+    Fortran order, as transposed / strided / reversed views of other arrays; dicts built in another insertion order.
+    Records are changed in place, field by field."""
+    res = model.env.resolve(t)
+    if isinstance(res, tuple):
+        if res[0] == "record":
+            fields = model.env.record_fields(res)
+            keys = [k for k in vars(v) if not k.startswith("__")]
+            if len(keys) == len(fields):
+                for (n, ft), k in zip(fields, keys):
+                    setattr(v, k, perturb_representation(model, ft, getattr(v, k), rng, stats))
+        return v
+    t = res
+    if isinstance(t, Opt):
+        return None if v is None else perturb_representation(model, t.inner, v, rng, stats)
+    if isinstance(t, Vec):
+        if isinstance(v, list):
+            return [perturb_representation(model, t.inner, x, rng, stats) for x in v]
+        return v
+    if isinstance(t, Map) and isinstance(v, dict):
+        items = [(k, perturb_representation(model, t.value, x, rng, stats)) for k, x in v.items()]
+        rng.shuffle(items)
+        return dict(items)
+    if isinstance(t, Arr) and isinstance(v, np.ndarray) and v.size > 0 and v.ndim >= 1 and v.dtype != object:
+        how = rng.choice(["fortran", "transposed_view", "strided_view", "reversed_view", "as_is"] if v.ndim >= 2 else ["strided_view", "reversed_view", "as_is"])
+        if stats is not None:
+            stats["py_array_layout_" + how] = stats.get("py_array_layout_" + how, 0) + 1
+        if how == "fortran":
+            return np.asfortranarray(v)
+        if how == "transposed_view":
+            return np.ascontiguousarray(v.T).T
+        if how == "strided_view":
+            big = np.zeros(v.shape[:-1] + (v.shape[-1] * 2,), dtype=v.dtype)
+            big[..., ::2] = v
+            return big[..., ::2]
+        if how == "reversed_view":
+            return np.ascontiguousarray(v[::-1])[::-1]
+    return v
+
+
+def rewrite(model: PyModel, proto: M.Protocol, data: bytes, out_fmt: str, rng, stats=None):
+    """Read every step into Python objects with the generated binary reader, put the values into another in-memory
+    representation, and write them with a fresh generated writer (one call per step).  Returns (output, error)."""
+    try:
+        pyvals = read_python_values(model, proto, data)
+    except Exception as e:  # noqa
+        return None, e
+    out = SimSink() if out_fmt == "binary" else io.StringIO()
+    try:
+        ns = model.pkg.namespace
+        for i, (name, t, is_stream) in enumerate(proto.steps):
+            qt = M.qualify(t, ns)
+            if is_stream:
+                pyvals[i] = [perturb_representation(model, qt, x, rng, stats) for x in pyvals[i]]
+            else:
+                pyvals[i] = perturb_representation(model, qt, pyvals[i], rng, stats)
+        w = model.cls(proto, out_fmt, "Writer")(out)
+        meths = model.step_methods(w, "write_")
+        for i in range(len(proto.steps)):
+            meths[i](pyvals[i])
+        w.close()
+    except Exception as e:  # noqa
+        return (bytes(out.buf) if out_fmt == "binary" else out.getvalue()), e
+    return (bytes(out.buf) if out_fmt == "binary" else out.getvalue()), None
+
+
 def read_python_values(model: PyModel, proto: M.Protocol, data: bytes):
     """Python-object values of every step (lists for streams), read with the generated binary reader
     from a reference-encoded stream; used as inputs for writer histories."""
